@@ -569,11 +569,171 @@ def constant_sequences(rep):
                     {'first': repr(first), 'second': repr(second)})
 
 
+def _strip_annotations(t):
+    if isinstance(t, list):
+        if t and t[0] == '!' and len(t) > 1:
+            return _strip_annotations(t[1])
+        return [_strip_annotations(x) for x in t]
+    return t
+
+
+def _rename_symbols(t, suffix):
+    """(an environment has one type per symbol name: scripts that are not
+    variants of each other get name spaces of their own)"""
+    if isinstance(t, list):
+        return [_rename_symbols(x, suffix) for x in t]
+    if isinstance(t, tuple) and t[0] == 's':
+        return ('s', t[1] + suffix)
+    return t
+
+
+def _symbol_names(t, acc):
+    if isinstance(t, list):
+        for x in t:
+            _symbol_names(x, acc)
+    elif isinstance(t, tuple) and t[0] == 's':
+        acc.add(t[1])
+    return acc
+
+
+def _canon_fresh(text, names):
+    """Number the parser's fresh symbols by first occurrence: the property
+    compares up to the names of fresh symbols.  The parser derives them from
+    a name of the script (<name><n> for a binder that clashes with a global,
+    __<name><n> for a parameter of a definition)."""
+    import re
+    seen = {}
+
+    def sub(m):
+        tok = m.group(0)
+        raw = tok[1:-1] if tok.startswith('|') else tok
+        if raw in names:
+            return tok
+        for k in range(len(raw) - 1, 0, -1):
+            if not raw[k:].isdigit():
+                break
+            base = raw[:k]
+            if base in names or (base.startswith('__') and
+                                 base[2:] in names):
+                if raw not in seen:
+                    seen[raw] = len(seen)
+                return '|%s#%d|' % (base, seen[raw])
+        return tok
+    return re.sub(r'\|[^|]*\||[^\s()]+', sub, text)
+
+
+def _observe_script(env, text, parser=None, names=()):
+    """What a user sees of a parsed script: the commands as printed by both
+    printers, the annotation table, the last formula."""
+    from pysmt.smtlib.parser import SmtLibParser
+
+    def go():
+        ps = parser if parser is not None else SmtLibParser(env)
+        sc = ps.get_script(StringIO(text))
+        out = []
+        for dag in (False, True):
+            buf = StringIO()
+            sc.serialize(buf, daggify=dag)
+            out.append(_canon_fresh(buf.getvalue(), names))
+        ann = sc.annotations
+        dump = []
+        if ann is not None:
+            for f, d in ann._annotations.items():
+                for k, vs in d.items():
+                    dump.append((_canon_fresh(f.to_smtlib(False), names), k,
+                                 sorted(map(str, vs))))
+        out.append(sorted(dump))
+        try:
+            out.append(_canon_fresh(
+                sc.get_last_formula().to_smtlib(False), names))
+        except Exception as e:
+            out.append('exc:' + common.exc_name(e))
+        return out
+    try:
+        with warnings.catch_warnings():
+            warnings.simplefilter('ignore')
+            return ('ok', go())
+    except Exception as e:
+        return ('exc', common.exc_name(e))
+
+
+def parse_sequences(rep, n):
+    """Scripts read one after the other in one environment - each by a
+    parser of its own, or all by one parser - and the last one compared
+    with reading it in a fresh environment.  The last script shares its
+    terms with an earlier one that annotates them (or the other way
+    round)."""
+    from pysmt.environment import Environment, push_env, pop_env
+    from . import textgen as T
+    rng = random.Random(rep.seed * 1299709 + rep.shard * 31 + 5)
+    k = 0
+    while k < n and not rep.out_of_time():
+        k += 1
+        g = T.TextGen(random.Random(rng.randrange(10 ** 9)),
+                      depth=rng.choice([2, 3]))
+        try:
+            tree = g.script(n_cmds=rng.choice([4, 6, 9]))
+        except T.NoLiteral:
+            continue
+        plain = _strip_annotations(tree)
+        annotated = tree != plain
+        names = _symbol_names(tree, set())
+        ta, tp = T.render(tree), T.render(plain)
+        others = []
+        for _ in range(rng.randint(0, 2)):
+            g2 = T.TextGen(random.Random(rng.randrange(10 ** 9)), depth=2)
+            try:
+                others.append(T.render(_rename_symbols(
+                    g2.script(n_cmds=4), '_o%d' % len(others))))
+            except T.NoLiteral:
+                pass
+        first, probe = (ta, tp) if k % 2 == 0 else (tp, ta)
+        hist = others + [first]
+        rng.shuffle(hist)
+        one_parser = (k % 3 == 0)
+        e1, e2 = Environment(), Environment()
+        push_env(e1)
+        try:
+            from pysmt.smtlib.parser import SmtLibParser
+            ps = SmtLibParser(e1) if one_parser else None
+            for t in hist:
+                _observe_script(e1, t, ps)
+            a = _observe_script(e1, probe, ps, names)
+        finally:
+            pop_env()
+        push_env(e2)
+        try:
+            b = _observe_script(e2, probe, None, names)
+        finally:
+            pop_env()
+        rep.count('parse_sequence_checks')
+        if annotated:
+            rep.count('parse_sequences_with_annotations')
+        rep.case(key=('parseseq', probe, tuple(hist)))
+        if a != b:
+            what = 'outcome'
+            if a[0] == 'ok' and b[0] == 'ok':
+                what = ['tree-print', 'dag-print', 'annotations',
+                        'last-formula'][[i for i in range(4)
+                                         if a[1][i] != b[1][i]][0]]
+            rep.violation(
+                '%s/parse-history/%s/%s' % (
+                    PROP, 'one-parser' if one_parser else 'new-parsers',
+                    what),
+                'reading %r after %r gives %s; in a fresh environment: %s'
+                % (probe[:200], [h[:120] for h in hist], str(a)[:300],
+                   str(b)[:300]),
+                {'probe': probe, 'history': hist, 'one_parser': one_parser})
+
+
 def run(rep):
     M.NODE_MONITOR.install()
     ck = Checker(rep)
     if rep.shard == 0 and (not rep.only or rep.only == 'constants'):
         constant_sequences(rep)
+    rep.share(0.1)
+    if not rep.only or rep.only == 'parse':
+        parse_sequences(rep, 40 if rep.tier == 'quick' else 4000)
     rep.share(0.35)
     if not rep.only or rep.only == 'pairs':
         pair_sequences(rep)
